@@ -27,6 +27,9 @@ def rand_hist(rng, U, M, n):
             # clear / overwrite exactly the key the traversal has just returned
             h.append({"op": "set", "cur": True, "path": rng.choice(["RawSet", "lua", "rawset"]), "v": ["nil"] if rng.random() < 0.7 else rng.choice(VALS)})
             continue
+        if r < 0.27:
+            h.append({"op": "pop"})        # table.remove(t): clears t[#t], also in the middle of a traversal
+            continue
         if r < 0.30:
             v = rng.choice(VALS)
             if arrmax < 4:
@@ -68,6 +71,8 @@ def trav_clear_hists(rng, U, M, n):
         for j in range(1, len(ks) + 1):
             h = list(build) + [{"op": "next", "restart": True}] + [{"op": "next"}] * (j - 1)
             h.append({"op": "set", "cur": True, "path": rng.choice(["RawSet", "lua", "rawset"]), "v": ["nil"] if rng.random() < 0.8 else rng.choice(VALS[1:])})
+            if rng.random() < 0.35: # the last list element is popped right there (table.remove shrinks the array part)
+                h[-1] = {"op": "pop"}
             if rng.random() < 0.3:  # the length is read in the middle of the traversal
                 h.append({"op": "set", "path": "RawSet", "k": ["nil"], "v": ["nil"]} if False else {"op": "next"})
             h += [{"op": "next"}] * (len(ks) + 2)
@@ -208,6 +213,9 @@ def replay(path):
     M = 5 if cfgtag in ("lo", "rlo", "tclo") else 0
     hist = []
     for e in tr["ev"]:
+        if e.get("entry") in ("lua:table.remove", "tb.Remove"):
+            hist.append({"op": "pop"})
+            continue
         op = {"op": e["op"]}
         for k in ("k", "v"):
             if k in e and e["op"] != "next":
